@@ -89,7 +89,20 @@ def norm(v):
     """JSON-able normal form used for comparison: exceptions by class, blank as $e, floats by repr, exact types."""
     if isinstance(v, codec.Raised):
         return {'$exc': v.cls}
+    if isinstance(v, float) and v == v and abs(v) < 2 ** 53 and v == int(v):
+        return int(v)        # a workbook cannot tell 2.0 from 2 (one number type): numbers are compared by exact value
     return codec.enc(v, is_empty=is_empty)
+
+
+BLANK = {'$e': 1}      # the library's own blank value (ExcelInPython.EmptyCell()): the edited workbook has no cell there
+
+
+def dec_val(ev, Empty):
+    return Empty() if ev == BLANK else codec.dec(ev)
+
+
+def norm_enc(ev):
+    return BLANK if ev == BLANK else norm(codec.dec(ev))
 
 
 def show(j):
@@ -107,8 +120,8 @@ def show(j):
 
 F = lambda x: {'$f': repr(float(x))}  # noqa
 VALS_QUICK = [0, F(0.0), False, '', 1, True, 2, F(2.5), -3, 'x', 'y', 'text', '7', {'$dt': [2020, 1, 1, 0, 0, 0, 0]},
-              F(1e15 + 0.5), 10 ** 18, '#N/A', F(1.5)]
-VALS_MORE = ['L' * 60, {'$dt': [2051, 1, 1, 0, 0, 0, 0]}, {'$dt': [2024, 2, 29, 12, 0, 0, 0]}, F(-0.0), F(1e-9), 'X', '>1', 3,
+              F(123456789.25), 10 ** 15, '#N/A', F(1.5)]
+VALS_MORE = [BLANK, 'L' * 60, {'$dt': [2051, 1, 1, 0, 0, 0, 0]}, {'$dt': [2024, 2, 29, 12, 0, 0, 0]}, F(-0.0), F(1e-9), 'X', '>1', 3,
              F(2.0), 'z']
 FALSY = [0, F(0.0), False, '']
 NUMS_EXACT = [0, 1, 2, -3, 7, 10 ** 15, F(0.5), F(1.5), F(2.5), F(-0.25), F(0.0)]
@@ -234,6 +247,8 @@ class Book:
         cells = dict(self.cells)
         for k, ev in edits.items():
             cells[k] = '=""' if ev == '' else ev
+            if ev == BLANK:
+                cells.pop(k)
         sheets = [{'title': t, 'cells': []} for t in self.titles]
         for (s, c, r), v in sorted(cells.items()):
             sheets[s]['cells'].append([c + 1, r + 1, v])
@@ -355,15 +370,13 @@ def gen_workbook(rng):
 
 
 # ----------------------------------------------------------------------------------------------- running histories
-CELL_METHOD = re.compile(r'_\d+_\d+_\d+(_\d+)?')
-
-
 def abstract_twin(cls):
     """the same cell methods on top of the importable AbstractExcelInPython (the second copy of the runtime)"""
     Abs = lib.get_class('abstract')
     inst = cls()
     titles, sizes = dict(inst.get_titles()), copy.deepcopy(inst.get_sheets_size())
-    ns = {k: v for k, v in cls.__dict__.items() if CELL_METHOD.fullmatch(k)}
+    common = set(lib.get_class('runtime').__dict__)        # everything the translation adds to the bare runtime
+    ns = {k: v for k, v in cls.__dict__.items() if k not in common}
 
     def __init__(self, arguments=None):
         Abs.__init__(self, arguments)
@@ -471,7 +484,7 @@ def run_history(env, hist, probes=None, want_trace=False):
             for ent in st['cells']:
                 t, c, r, ev = ent[:4]
                 oid = ent[4] if len(ent) > 4 else None
-                val = codec.dec(ev)
+                val = dec_val(ev, env.cls.EmptyCell)
                 if oid is not None and oid in objs:
                     cell = objs[oid]                         # the caller re-uses his Cell object with a new value
                     cell.value = val
@@ -505,6 +518,8 @@ def run_history(env, hist, probes=None, want_trace=False):
             e, in_slice = exp[pr]
             if not in_slice and pr not in edits:
                 continue                                      # outside the entry cell's slice: no clause
+            if not in_slice:
+                e = norm_enc(edits[pr])                # overridden, outside the slice: only the supplied constant
             got = norm(observe(ex, titles, pr, qstyle, via, grids))
             base = norm(observe(plain, titles, pr, 'num'))
             res['evals'] += 1
@@ -516,9 +531,9 @@ def run_history(env, hist, probes=None, want_trace=False):
             if got != e:
                 kind = 'differs_from_fresh_translation'
             if pr in edits:
-                if got != norm(codec.dec(edits[pr])):
+                if got != norm_enc(edits[pr]):
                     kind = 'overridden_cell_not_the_supplied_constant'
-                    e = norm(codec.dec(edits[pr]))
+                    e = norm_enc(edits[pr])
             elif not env.entry and not any(book.depends(pr, t) for t in edits) and got != base:
                 kind = 'unrelated_cell_changed'
                 e = base
@@ -536,6 +551,8 @@ def key_of(book, mm, entry=False):
     if pr in edits:
         return f'C04.direct_read.{book.klass(pr)}'
     infl = sorted({book.klass(t) for t in edits if book.depends(pr, t, ())}) or sorted({book.klass(t) for t in edits})
+    if any(isinstance(v, dict) and '$f' in v and float(v['$f']) == int(float(v['$f'])) for v in edits.values()):
+        infl.append('integral_float_value')
     if mm['kind'] == 'unrelated_cell_changed':
         return f'C04.unrelated.{book.shape(pr)}.after_override_of_{"+".join(infl)}'
     return f'C04.dependent.{book.shape(pr)}.reads_{"+".join(infl)}' + ('.entry_point' if entry else '')
@@ -614,7 +631,8 @@ def _check_payload(payload):
 
 
 def _shrink(fail):
-    """greedy minimisation of a failing history (drop steps, drop cells of a batch); keeps the root-cause key"""
+    """greedy minimisation of a failing history (drop steps, drop cells of a batch) that keeps the same kind of mismatch on
+    the same cell; the root-cause key is recomputed from the minimal history"""
     payload = fail['replay']
     mm, text, info = _check_payload(payload)
     if mm is None:
@@ -624,7 +642,7 @@ def _shrink(fail):
     key0 = info[1]
     cur = copy.deepcopy(payload)
     changed = True
-    budget = 40
+    budget = 60
     while changed and budget > 0:
         changed = False
         steps = cur['history']['steps']
@@ -646,8 +664,8 @@ def _shrink(fail):
             else:
                 del ts[cnd[1]]['cells'][cnd[2]]
             m2, t2, i2 = _check_payload(trial)
-            if m2 is not None and i2[1] == key0:
-                cur, text, changed = trial, t2, True
+            if m2 is not None:
+                cur, text, key0, changed = trial, t2, i2[1], True
                 break
     # simplest spelling / view that still fails
     for field, simple in (('qstyle', 'num'), ('via', 'get_cell')):
@@ -655,8 +673,8 @@ def _shrink(fail):
             trial = copy.deepcopy(cur)
             trial['history'][field] = simple
             m2, t2, i2 = _check_payload(trial)
-            if m2 is not None and i2[1] == key0:
-                cur, text = trial, t2
+            if m2 is not None:
+                cur, text, key0 = trial, t2, i2[1]
     return {'key': key0, 'what': text, 'replay': cur}
 
 
@@ -670,8 +688,8 @@ def replay(payload):
         return {'fails': bool(r['fails']), 'text': r['fails'][0]['what'] if r['fails'] else
                 f'PYTHONHASHSEED={payload["seed"]}: {r["evals"]} observations equal the expected trace'}
     if k == 'arith':
-        f = _arith_one(payload['a1'], payload['a2'], payload['d1'])
-        return {'fails': bool(f), 'text': f[0] if f else 'arithmetic of the dependants is exact'}
+        f = _arith_job([(payload['a1'], payload['a2'], payload['d1'])])['fails']
+        return {'fails': bool(f), 'text': f[0]['what'] if f else 'arithmetic of the dependants is exact'}
     return {'fails': False, 'text': 'nothing to replay'}
 
 
@@ -694,7 +712,7 @@ def _hash_child():
                 if st['op'] == 'set':
                     batch = []
                     for ent in st['cells']:
-                        batch.append(Cell(ent[0], ent[1], ent[2], codec.dec(ent[3])))
+                        batch.append(Cell(ent[0], ent[1], ent[2], dec_val(ent[3], env.cls.EmptyCell)))
                     ex.set_cells(batch)
                 else:
                     for pr in probes:
@@ -744,30 +762,6 @@ def _spawn_seed(args):
 # ----------------------------------------------------------------------------------------------- arithmetic reference
 def _num(ev):
     return codec.dec(ev)
-
-
-def _arith_one(a1v, a2v, d1v):
-    """S!A1, S!A2, Data!A1 overridden by exactly representable numbers: the dependants follow ordinary arithmetic."""
-    from excel2pycl import Cell
-    wb = core_workbook()
-    out = []
-    with lib.scratch() as d:
-        env = Env(wb, None, d)
-        ex = env.executor()
-        ex.set_cells([Cell('S', 'A', '1', _num(a1v)), Cell(0, 0, 1, _num(a2v)), Cell('Data', 0, 0, _num(d1v))])
-        a, b, c = _num(a1v), _num(a2v), _num(d1v)
-        want = {'S!D2': a + b, 'S!D12': (a + b) * 2, 'S!D7': c + a, 'Data!D2': c + 20, 'Data!B1': a * 2, 'Data!C2': (c + 20) * 2,
-                'S!D1': a + b + 1.5, 'S!D24': a + b + 1.5 + c + 20}
-        for addr, w in want.items():
-            pr = env.book.parse(addr)
-            got = observe(ex, env.book.titles, pr, 'num')
-            ok = not isinstance(got, codec.Raised) and not isinstance(got, bool) and isinstance(got, (int, float)) and got == w
-            if addr in ('S!D2', 'S!D12', 'S!D7', 'Data!D2', 'Data!B1', 'Data!C2'):
-                ok = ok and type(got) is type(w)
-            if not ok:
-                out.append(f'A1={show(a1v)}, A2={show(a2v)}, Data!A1={show(d1v)}: {addr} {env.book.cells[pr]} reports {got!r}, '
-                           f'arithmetic gives {w!r}')
-    return out
 
 
 def _arith_job(triples):
@@ -962,7 +956,7 @@ def build_jobs(tier, seed):
     jobs.append({'check': 'abstract_runtime', 'wb': wb, 'histories': ah[:half], 'runtime': 'abstract', 'group': 'a'})
     jobs.append({'check': 'abstract_runtime', 'wb': wb, 'histories': ah[half:], 'runtime': 'abstract', 'group': 'b'})
     # entry point: every formula cell of the core workbook as entry
-    ev_small = [0, '', 5, 'x', F(2.5)] + ([True, -3, {'$dt': [2020, 1, 1, 0, 0, 0, 0]}] if thorough else [])
+    ev_small = [0, '', 5, 'x', F(2.5), BLANK] + ([True, -3, {'$dt': [2020, 1, 1, 0, 0, 0, 0]}] if thorough else [])
     for cell, v in book.cells.items():
         if not Book.is_formula(v):
             continue
@@ -1002,13 +996,14 @@ def build_jobs(tier, seed):
 def hashseed_histories(book, vals, rng, n):
     T = book.titles
     out = []
+    hv = [v for v in vals if not (isinstance(v, dict) and '$f' in v and float(v['$f']) == int(float(v['$f'])))]
     cells = [book.parse(a) for a in ('S!A1', 'S!D3', 'S!A3', 'S!H200', 'Data!A1', 'S!D2', 'S!C1')]
     for i in range(n):
         steps = []
         for b in range(3):
             st = {'op': 'set', 'cells': []}
             for _ in range(rng.randint(2, 6)):
-                st['cells'].append(spell(T, rng.choice(cells[:3 + i % 5]), rng.choice(STYLES[:4])) + [rng.choice(vals)])
+                st['cells'].append(spell(T, rng.choice(cells[:3 + i % 5]), rng.choice(STYLES[:4])) + [rng.choice(hv)])
             steps.append(st)
             if b != 1 or i % 2:
                 steps.append(GET)
@@ -1057,7 +1052,7 @@ def run(tier='quick', seed=0):
                     uniq.append(f)
             pc['fails'] = uniq[:25]
         todo = [(name, f) for name, pc in per_check.items() for f in pc['fails']]
-        limit = 64 if thorough else 24
+        limit = 120 if thorough else 60
         shrunk = pool.map(_shrink, [f for _, f in todo[:limit]], chunksize=1)
         for (name, f), s in zip(todo[:limit], shrunk):
             f.update(s)
@@ -1071,7 +1066,8 @@ def run(tier='quick', seed=0):
     checks = []
     nvals = len(vals)
     bounds = {
-        'constant_cells': f'core workbook (2 sheets, 33+6 cells, 25+6 formulas); 6 constant targets x {nvals} values',
+        'constant_cells': f'core workbook (2 sheets, {len(book.cells)} cells, {len(book.areas)} of them formulas); 6 constant targets x '
+                          f'{nvals} values',
         'formula_cells': f'6 formula targets (=A1+A2 read by =D2*2, =1/0 read by =D3+1 and IFERROR, =D3+1, SUM, the same text =A1+A2 on '
                          f'sheet Data, =S!A1*2) x {nvals} values',
         'falsy_values': '12 non-blank targets (6 constants, 6 formulas of which 2 raise) x {0, 0.0, False, ""}',
@@ -1087,9 +1083,9 @@ def run(tier='quick', seed=0):
                             f'{4 if thorough else 3} cells, 45% re-use of an earlier target, queries after 60% of the batches, via '
                             'get_cell/get_cells/get_sheet',
         'random_workbooks': f'{per_check["random_workbooks"]["jobs"]} generated workbooks x {6 if thorough else 4} histories (same shape)',
-        'entry_point': f'core workbook: each of the 31 formula cells as entry x (<= {12 if thorough else 5} cells it reads + itself) x '
-                       f'{len([0, "", 5, "x", 2.5]) + (3 if thorough else 0)} values{"" if thorough else " (every second)"} + XFD1; '
-                       f'{per_check["entry_point"]["jobs"] - 31} generated workbooks with a random entry',
+        'entry_point': f'core workbook: each of the {len(book.areas)} formula cells as entry x (<= {12 if thorough else 5} cells it reads + itself) x '
+                       f'{6 + (3 if thorough else 0)} values{"" if thorough else " (every second)"} + XFD1; '
+                       f'{per_check["entry_point"]["jobs"] - len(book.areas)} generated workbooks with a random entry',
         'abstract_runtime': f'{per_check["abstract_runtime"]["histories"]} histories (25 targets x 3 rewrites + random) on the abstract twin',
         'views': '24 targets x 2 batches, read through get_cells and through get_sheet (by index and by title)',
     }
